@@ -52,7 +52,8 @@ PROVED = (
     'fixed-point factor puts the reference at the expected distance; the diagonal factor makes the recomputed mean '
     'sensor diagonal equal to the expected one; neither operation changes any object reachable from its inputs '
     '(heap model of copy.copy + attribute rebinding), also when the inputs share Pose instances or arrays: every position gets its '
-    'own copy, scaled exactly once.')
+    'own copy, scaled exactly once. Chains align -> scale -> align on the outputs of the previous step equal the composition '
+    'of the value-level functions (a cached-matrix variant that scaling does not invalidate is refuted).')
 NOT_PROVED = (
     'That scipy.optimize.least_squares started from zero reaches the zero residual within its evaluation budget for '
     'every misalignment below 30 degrees / 3 m (the convergence clause): validated by sampling against ground truth '
@@ -206,6 +207,17 @@ def gen_scale_case(rng):
     if rng.random() < 0.2:
         k = rng.choice([1e-3, 1e3, 0.5, 2.0])
         actual[1] = [x * k for x in actual[1]]
+    # representation of every translation: float64, Python ints (tuple / list), int64 / int32 arrays (whole-number
+    # positions), float32 arrays; mixed within one system; the factor |expected| / |actual| is never integral
+    bs_tk = []
+    for b in bs:
+        tk = rng.choice(T_KINDS) if rng.random() < 0.5 else 'f64'
+        b[2] = _typed_t(rng, b[2], tk)
+        bs_tk.append(tk)
+    for P in cf + [actual]:
+        tk = rng.choice(T_KINDS) if rng.random() < 0.5 else 'f64'
+        P[1] = _typed_t(rng, P[1], tk)
+        P.append(tk)
     case = {}
     if rng.random() < 0.5:
         # shared references: one Pose instance at several list positions / under several base-station ids, the `actual`
@@ -218,6 +230,7 @@ def gen_scale_case(rng):
             free = [b for b in range(16) if b not in [x[0] for x in bs]]
             bs.append([rng.choice(free), copy.deepcopy(bs[j][1]), list(bs[j][2])])
             bs_same.append(bs_same[j])
+            bs_tk.append(bs_tk[j])
         case = {'cf_same': cf_same, 'bs_same': bs_same}
         if cf and rng.random() < 0.5:
             k = rng.randrange(len(cf))
@@ -229,11 +242,12 @@ def gen_scale_case(rng):
             i, j = cf_same.index(g1), cf_same.index(g2)
             for p in range(len(cf)):
                 if cf_same[p] == g2:
-                    cf[p][1] = list(cf[i][1])
+                    cf[p][1:] = copy.deepcopy(cf[i][1:])
             if case.get('actual_is_cf') is not None and cf_same[case['actual_is_cf']] == g2:
-                actual[1] = list(cf[i][1])
+                actual[1:] = copy.deepcopy(cf[i][1:])
             case['share_t'] = [i, j]
-    return {'kind': 'scale_fixed', 'bs': bs, 'cf': cf, 'expected': expected, 'actual': actual, **case,
+    return {'kind': 'scale_fixed', 'bs': bs, 'cf': cf, 'expected': expected, 'actual': actual, 'bs_tk': bs_tk,
+            'direct_factor': rng.choice([1.25, 0.75, 2.5, 0.3, 1.0000001]), **case,
             'container': _pick_kind(rng), 'seq': rng.choice(['list', 'tuple']), 'pose_readonly': rng.random() < 0.3}
 
 
@@ -325,10 +339,48 @@ def gen_diag_case(rng, lib_constant=False):
 
 
 # ------------------------------------------------------------------------------------------------ running the code
-def _pose(P):
+T_KINDS = ['f64', 'pyint_tuple', 'pyint_list', 'i64', 'i32', 'f32']     # how a caller may write a translation
+INT_T_KINDS = ('pyint_tuple', 'pyint_list', 'i64', 'i32')
+
+
+def _tvec(t, tk):
+    """The translation argument of Pose(...) in the given representation (Pose.__init__ keeps the dtype: np.array)."""
+    np = _np()
+    if tk in (None, 'f64'):
+        return np.array(t, dtype=float)
+    if tk == 'pyint_tuple':
+        return tuple(int(x) for x in t)
+    if tk == 'pyint_list':
+        return [int(x) for x in t]
+    if tk == 'i64':
+        return np.array([int(x) for x in t], dtype=np.int64)
+    if tk == 'i32':
+        return np.array([int(x) for x in t], dtype=np.int32)
+    if tk == 'f32':
+        return np.array(t, dtype=np.float32)
+    raise ValueError(tk)
+
+
+def _typed_t(rng, t, tk):
+    """Values representable in the given kind: whole numbers (not all zero) for the integer kinds, float32 values for f32."""
+    import struct
+    if tk in INT_T_KINDS:
+        while True:
+            v = [float(rng.randint(-5, 5)) for _ in range(3)]
+            if any(v):
+                return v
+    if tk == 'f32':
+        return [struct.unpack('<f', struct.pack('<f', x))[0] for x in t]
+    return t
+
+
+def _pose(P, tk=None):
+    """P = [R, t] or [R, t, kind of the translation]"""
     Pose = _cf()[2]
     np = _np()
-    return Pose(np.array(P[0], dtype=float), np.array(P[1], dtype=float))
+    if tk is None and len(P) > 2:
+        tk = P[2]
+    return Pose(np.array(P[0], dtype=float), _tvec(P[1], tk))
 
 
 def _poses(vals, same=None):
@@ -342,8 +394,8 @@ def _poses(vals, same=None):
     return out
 
 
-def _bsdict(bs, same=None):
-    ps = _poses([[R, t] for _, R, t in bs], same)
+def _bsdict(bs, same=None, tks=None):
+    ps = _poses([[R, t] + ([tks[i]] if tks else []) for i, (_, R, t) in enumerate(bs)], same)
     return {int(b): p for (b, _, _), p in zip(bs, ps)}
 
 
@@ -654,7 +706,7 @@ def _run_scale_fixed(case, plain=False):
     """plain: the tie's call (float64 arrays, lists); otherwise the container kinds recorded in the case."""
     S = _cf()[1]
     np = _np()
-    bs = _bsdict(case['bs'], None if plain else case.get('bs_same'))
+    bs = _bsdict(case['bs'], None if plain else case.get('bs_same'), case.get('bs_tk'))
     cf = _poses(case['cf'], None if plain else case.get('cf_same'))
     actual = _pose(case['actual'])
     if not plain and case.get('actual_is_cf') is not None:
@@ -693,20 +745,42 @@ def check_scale_fixed(case):
             return {'class': 'scale_result_aliases_input', 'case': case, 'expected': 'fresh poses', 'observed': 'aliased'}
         if np.array(a.rot_matrix).tobytes() != np.array(b.rot_matrix).tobytes():
             return {'class': 'scale_changes_rotation', 'case': case, 'expected': 'rotation unchanged', 'observed': 'changed'}
-        worst = max(worst, np.abs(b.translation - f * a.translation).max() / (1e-300 + abs(f) * (1 + np.abs(a.translation).max())))
-    if not worst <= 1e-12:
+        # real multiplication whatever the representation of the input translation (Python ints, int32/int64, float32,
+        # float64); a float32 translation stays float32 in numpy: 6e-8 relative, tolerance 1e-6; otherwise 1e-12
+        t_in = np.asarray(a.translation, dtype=np.float64)
+        t_tol = 1e-6 if np.asarray(a.translation).dtype == np.float32 else 1e-12
+        dev = np.abs(np.asarray(b.translation, dtype=np.float64) - f * t_in).max() / (1e-300 + abs(f) * (1 + np.abs(t_in).max()))
+        if dev / t_tol > worst:
+            worst, worst_at = dev / t_tol, {'input_translation': t_in.tolist(), 'input_dtype': str(np.asarray(a.translation).dtype),
+                                            'factor': f, 'output_translation': np.asarray(b.translation, dtype=float).tolist()}
+    if not worst <= 1.0:
         return {'class': 'scale_not_uniform', 'case': case, 'expected': 'every translation times the returned factor',
-                'observed': float(worst),
-                'detail': 'scale_fixed_point: some output translation is not factor * input translation (shared references: '
-                          'cf_same=%s bs_same=%s actual_is_cf=%s share_t=%s)' % (
+                'observed': worst_at,
+                'detail': 'scale_fixed_point: output translation %s is not factor %.6g * input translation %s (dtype %s); shared '
+                          'references: cf_same=%s bs_same=%s actual_is_cf=%s share_t=%s' % (
+                              worst_at['output_translation'], f, worst_at['input_translation'], worst_at['input_dtype'],
                               case.get('cf_same'), case.get('bs_same'), case.get('actual_is_cf'), case.get('share_t'))}
+    # Pose.scale on its own, with the factor as a Python float / numpy scalar
+    if case.get('direct_factor'):
+        for P, tk in [([R, t], k_) for (_, R, t), k_ in zip(case['bs'], case.get('bs_tk') or [None] * len(case['bs']))][:2] \
+                + [(P_, None) for P_ in case['cf'][:2]]:
+            for fac in (case['direct_factor'], np.float64(case['direct_factor']), np.float32(case['direct_factor'])):
+                p = _pose(P, tk)
+                t0 = np.asarray(p.translation, dtype=np.float64).copy()
+                single = np.asarray(p.translation).dtype == np.float32 or isinstance(fac, np.float32)
+                p.scale(fac)
+                want_t = float(fac) * t0
+                if not np.abs(np.asarray(p.translation, dtype=np.float64) - want_t).max() <= (1e-6 if single else 1e-12) * (1 + np.abs(want_t).max()):
+                    return {'class': 'scale_not_uniform', 'case': case, 'expected': want_t.tolist(),
+                            'observed': np.asarray(p.translation, dtype=float).tolist(),
+                            'detail': 'Pose.scale(%r) on translation %s (%s)' % (fac, t0.tolist(), tk or (P[2] if len(P) > 2 else 'f64'))}
     outs = list(bs2.values()) + list(cf2)
     if len({id(p) for p in outs}) != len(outs) or len({id(p._t_vec) for p in outs}) != len(outs):
         return {'class': 'scale_outputs_aliased', 'case': case, 'expected': 'one fresh copy per entry',
                 'observed': 'two result entries are the same Pose object or share a translation array'}
     want = np.linalg.norm(expected)
     got = np.linalg.norm(actual.translation * f)
-    tol = 1e-5 if case.get('container') == 'f32' else 1e-9      # float32 norm inside numpy: 6e-8 relative
+    tol = 1e-5 if (case.get('container') == 'f32' or np.asarray(actual.translation).dtype == np.float32) else 1e-9  # float32 norm
     if not abs(got - want) <= tol * (1 + want) or not f >= 0:
         return {'class': 'scale_factor_wrong', 'case': case, 'expected': float(want), 'observed': [float(got), f]}
     return None
@@ -789,7 +863,119 @@ def check_scale_diag(case):
     return None
 
 
-CHECKS = {'align': check_align, 'align_history': check_align_history, 'scale_fixed': check_scale_fixed,
+# ------------------------------------------------------------------------------------------------ chains on the same objects
+def gen_chain_case(rng):
+    """Three operations in a row on the SAME Pose objects: the outputs of one step are the inputs of the next, nothing is
+    rebuilt from numbers in between.  A = align (fresh noise-free samples of a misalignment <= 30 deg), S = scale_fixed_point
+    (non-trivial factor), C = compose every pose with a rigid transform, D = scale_diagonals (on a rigidly moved copy of a
+    consistent ray geometry)."""
+    chain = rng.choice(['ASA', 'SAS', 'CSC', 'CSC', 'CDC', 'ASC'])
+    case = {'kind': 'chain', 'chain': chain}
+    if chain == 'CDC':
+        d = gen_diag_case(rng)
+        case['diag'] = d
+        case['bs'] = d['bs']
+    else:
+        a = gen_align_case(rng, noise=0.0)
+        case['bs'] = a['bs']
+        case['cf'] = [[_rand_rot(rng), [rng.uniform(-3, 3) for _ in range(3)]] for _ in range(rng.randint(0, 3))]
+    case['aligns'] = [gen_align_case(rng, noise=0.0) for _ in range(chain.count('A'))]
+    case['scales'] = [{'expected': [rng.uniform(0.5, 3) * rng.choice([-1, 1]) for _ in range(3)]} for _ in range(chain.count('S'))]
+    case['composes'] = [[_rand_rot(rng), [rng.uniform(-3, 3) for _ in range(3)]] for _ in range(chain.count('C'))]
+    return case
+
+
+def check_chain(case):
+    """Every step is judged against the VALUES its inputs have when the step starts (read through .rot_matrix /
+    .translation before the call): result = transformation o input, scaled = factor * input, whatever happened to the
+    objects before."""
+    np = _np()
+    A, S = _cf()[0], _cf()[1]
+    tolv = 1e-9
+
+    def val(p):
+        return np.array(p.rot_matrix, dtype=float).copy(), np.array(p.translation, dtype=float).copy()
+
+    def dev(p, R, t):
+        return max(np.abs(np.array(p.rot_matrix, dtype=float) - R).max(), np.abs(np.array(p.translation, dtype=float) - t).max() / (1 + np.abs(t).max()))
+
+    def fail(k, what, observed, expected):
+        return {'class': 'chain_step_ignores_current_value', 'case': case, 'expected': expected, 'observed': observed,
+                'detail': 'step %d (%s) of the chain %s on the same Pose objects: %s' % (k + 1, case['chain'][k], case['chain'], what)}
+
+    if case['chain'] == 'CDC':
+        bs, cf, samples = _diag_objects(case['diag'])
+    else:
+        bs = _bsdict(case['bs'])
+        cf = [_pose(P) for P in case['cf']]
+        samples = None
+    ia = isc = ic = 0
+    try:
+        for k, op in enumerate(case['chain']):
+            vin = {b: val(p) for b, p in bs.items()}
+            cin = [val(p) for p in cf]
+            if op == 'C':
+                G = _pose(case['composes'][ic])
+                ic += 1
+                GR, Gt = val(G)
+                bs = {b: G.rotate_translate_pose(p) for b, p in bs.items()}
+                cf = [G.rotate_translate_pose(p) for p in cf]
+                for (p, (R, t)) in [(bs[b], vin[b]) for b in bs] + list(zip(cf, cin)):
+                    if not dev(p, GR @ R, GR @ t + Gt) <= tolv:
+                        return fail(k, 'composed pose is not transformation o input', val(p)[1].tolist(), (GR @ t + Gt).tolist())
+            elif op == 'A':
+                a = case['aligns'][ia]
+                ia += 1
+                res, T = A.align(np.array(a['origin']), [np.array(p) for p in a['x_axis']], [np.array(p) for p in a['xy_plane']], bs)
+                TR, Tt = val(T)
+                # the base stations of the chain are not the ones the samples were generated with, so the half turn about X
+                # (first station above the floor) is decided by the CURRENT poses: T is judged on the samples and that test
+                worst = np.abs(TR @ np.array(a['origin']) + Tt).max()
+                for p in a['x_axis']:
+                    q = TR @ np.array(p) + Tt
+                    worst = max(worst, abs(q[1]), abs(q[2]), 0.0 if q[0] > 0 else 1.0)
+                for p in a['xy_plane']:
+                    worst = max(worst, abs((TR @ np.array(p) + Tt)[2]))
+                if not worst <= TOL_EXACT or res[list(bs.keys())[0]].translation[2] < -1e-9:
+                    return fail(k, 'samples are not aligned by the returned transformation / first base station below the floor',
+                                [float(worst), float(res[list(bs.keys())[0]].translation[2])], 'origin -> 0, x samples on +X, plane in Z=0')
+                for b in bs:
+                    R, t = vin[b]
+                    if not dev(res[b], TR @ R, TR @ t + Tt) <= tolv:
+                        return fail(k, 'aligned pose of base station %d is not transformation o input' % b,
+                                    val(res[b])[1].tolist(), (TR @ t + Tt).tolist())
+                bs = res
+            elif op in 'SD':
+                if op == 'S':
+                    first = list(bs.values())[0]
+                    expected = np.array(case['scales'][isc]['expected'])
+                    isc += 1
+                    want_f = np.linalg.norm(expected) / np.linalg.norm(vin[list(bs.keys())[0]][1])
+                    bs2, cf2, f = S.scale_fixed_point(bs, cf, expected, first)
+                else:
+                    want_f = case['diag']['factor']
+                    bs2, cf2, f = S.scale_diagonals(bs, cf, samples, case['diag']['expected_diagonal'])
+                f = float(f)
+                if not abs(f - want_f) <= (2e-3 if op == 'D' else 1e-9) * abs(want_f):
+                    return fail(k, 'scale factor', f, float(want_f))
+                for (p, (R, t)) in [(bs2[b], vin[b]) for b in bs] + list(zip(cf2, cin)):
+                    if not dev(p, R, f * t) <= tolv:
+                        return fail(k, 'scaled pose is not (rotation, factor * translation) of the input', val(p)[1].tolist(), (f * t).tolist())
+                bs, cf = bs2, list(cf2)
+        # every accessor of the final objects shows the same value: composing with the identity changes nothing, and
+        # pairwise distances equal those computed from the values
+        ident = _pose([[[1.0, 0.0, 0.0], [0.0, 1.0, 0.0], [0.0, 0.0, 1.0]], [0.0, 0.0, 0.0]])
+        for p in list(bs.values()) + cf:
+            R, t = val(p)
+            if not (dev(ident.rotate_translate_pose(p), R, t) <= tolv and dev(p.rotate_translate_pose(ident), R, t) <= tolv):
+                return fail(len(case['chain']) - 1, 'final pose composed with the identity differs from its own value',
+                            val(ident.rotate_translate_pose(p))[1].tolist(), t.tolist())
+    except Exception as e:  # noqa
+        return {'class': 'chain_raises', 'case': case, 'expected': 'three operations in a row', 'observed': repr(e)}
+    return None
+
+
+CHECKS = {'align': check_align, 'align_history': check_align_history, 'chain': check_chain, 'scale_fixed': check_scale_fixed,
           'scale_diag': check_scale_diag}
 
 
@@ -839,6 +1025,8 @@ def oracle(ctx, deep=False):
         cases.append(gen_align_case(ctx.rng, small=True))
     for _ in range(n_align // 10):
         cases.append(gen_history_case(ctx.rng))
+    for _ in range(n_align // 10):
+        cases.append(gen_chain_case(ctx.rng))
     for _ in range(ctx.scale(300, 3000)):
         cases.append(gen_scale_case(ctx.rng))
     for i in range(ctx.scale(150, 1500)):
@@ -870,10 +1058,12 @@ def oracle(ctx, deep=False):
             for key, val in (('angle_deg', decade(sm['angle_deg'])), ('translation_m', decade(sm['translation_m'])), ('mode', sm['mode'])):
                 mag[key][val] = mag[key].get(val, 0) + 1
     n_small = sum(mag['mode'].values())
-    pats = {}
+    pats, chains = {}, {}
     for c in cases:
         if c['kind'] == 'align_history':
             pats[c['pattern']] = pats.get(c['pattern'], 0) + 1
+        if c['kind'] == 'chain':
+            chains[c['chain']] = chains.get(c['chain'], 0) + 1
     return {'evaluations': len(cases), 'failures': out, 'distinct_nontrivial': 0,
             'rule': 'align on random layouts (misalignment <= 30 deg / 3 m, 1-4 samples per axis/plane, 1-4 base stations, '
                     'a third of them with 20-30 deg and 2-3 m, %d with bounded noise, %d corpus cases first): rigid (1e-9), inputs untouched, flips resolved, equal to '
@@ -881,12 +1071,15 @@ def oracle(ctx, deep=False):
                     'and mirrored: rigid, inputs untouched, flips resolved; %d boundary-scale layouts (rotation log-uniform 1e-6..30 deg, '
                     'translation log-uniform 1e-9..3 m, either or both exactly zero, single coordinate axis or random direction, '
                     'noise-free) exact to %g with misalignment magnitudes per decade %s; %d multi-call histories (2-4 align calls, persistent '
-                    'argument containers refilled in place / fresh ones, patterns %s), each call judged on its current contents; scale_fixed_point and scale_diagonals against the '
+                    'argument containers refilled in place / fresh ones, patterns %s), each call judged on its current contents; %d chains of three operations on the SAME Pose objects '
+                    '(A align, S scale_fixed_point, C compose, D scale_diagonals: %s), each step judged against the values its inputs '
+                    'have when it starts; scale_fixed_point and scale_diagonals against the '
                     'generating factor; point arguments are handed over as %s (arrays = list of 1-D float64, view = non-contiguous '
                     'view of a larger array, int = rounded: no exactness check), %d cases with read-only arrays inside the Pose '
                     'objects, tuple/list sequences; every input is compared bit for bit (identity, dtype, strides, flags, bytes, '
                     'base array of views) before/after; failures per class: %s' % (noisy, n_corpus, wide, n_small, TOL_SMALL, json.dumps(mag, sort_keys=True),
-                                                         sum(pats.values()), json.dumps(pats, sort_keys=True), kinds, frozen, seen),
+                                                         sum(pats.values()), json.dumps(pats, sort_keys=True),
+                                                         sum(chains.values()), json.dumps(chains, sort_keys=True), kinds, frozen, seen),
             'samples': [{'kind': c['kind'], 'angle_deg': c.get('angle_deg'), 'n_bs': len(c['bs'])} for c in cases[n_corpus:n_corpus + 2]]}
 
 
@@ -951,7 +1144,7 @@ def _close(model_ints, impl, what, case, dis, kinds=None):
         if kinds and kinds[k] == 'i':
             ok = (a == b)
         else:
-            ok = abs(a / float(1 << FIX) - b) <= TOL_TIE * max(1.0, abs(b))
+            ok = abs(a / float(1 << FIX) - b) <= (1e-6 if (kinds and kinds[k] == 's') else TOL_TIE) * max(1.0, abs(b))
         if not ok:
             dis.append({'what': what + ': model and implementation differ', 'case': case, 'index': k,
                         'model': a if (kinds and kinds[k] == 'i') else a / float(1 << FIX), 'impl': b})
@@ -1046,10 +1239,10 @@ def tie(ctx):
         impl, kinds = [], []
         for k in bs2:
             impl += [k] + _flat_pose(bs2[k])
-            kinds += ['i'] + ['q'] * 12
-        for p in cf2:
+            kinds += ['i'] + ['q'] * 9 + (['s'] if np.asarray(bs[k].translation).dtype == np.float32 else ['q']) * 3
+        for p0, p in zip(cf, cf2):
             impl += _flat_pose(p)
-            kinds += ['q'] * 12
+            kinds += ['q'] * 9 + (['s'] if np.asarray(p0.translation).dtype == np.float32 else ['q']) * 3
         impl.append(float(f))
         kinds.append('q')
         add('_scale_system',
@@ -1057,7 +1250,25 @@ def tie(ctx):
             % (_bs(c['bs']), '[' + '; '.join(_p(P) for P in c['cf']) + ']', _q(float(f))), impl, c, kinds=kinds)
         add('scale_fixed_point factor^2',
             '[qfix K (odiv Qops (norm2 Qops %s) (norm2 Qops (trans %s)))]' % (_v(c['expected']), _p(c['actual'])),
-            [float(f) ** 2], c)
+            [float(f) ** 2], c, kinds=['s' if (len(c['actual']) > 2 and c['actual'][2] == 'f32') else 'q'])
+    # ---- chain on the SAME objects: align loop (T1) -> _scale_system (s) -> align loop (T2), against the composed model
+    for i in range(max(4, n // 2)):
+        bsv = [[bid, _rand_rot(rng), [rng.uniform(-4, 4) for _ in range(3)]] for bid in rng.sample(range(16), rng.randint(1, 3))]
+        T1 = [_rand_rot(rng), [rng.uniform(-3, 3) for _ in range(3)]]
+        T2 = [_rand_rot(rng), [rng.uniform(-3, 3) for _ in range(3)]]
+        sf = rng.choice([0.5, 1.25, 2.0, 0.3]) * rng.uniform(0.9, 1.1)
+        objs = _bsdict(bsv)
+        p1, p2 = _pose(T1), _pose(T2)
+        step1 = {k: p1.rotate_translate_pose(p) for k, p in objs.items()}
+        step2 = S._scale_system(step1, [], sf)[0]
+        step3 = {k: p2.rotate_translate_pose(p) for k, p in step2.items()}
+        impl = []
+        for k in step3:
+            impl += [k] + _flat_pose(step3[k])
+        add('chain align-scale-align on the same objects',
+            "bsfix (align_apply Qops %s (fst (fst (scale_system Qops (align_apply Qops %s %s) [] %s))))"
+            % (_p(T2), _p(T1), _bs(bsv), _q(sf)), impl, {'bs': bsv, 'T1': T1, 'T2': T2, 'factor': sf},
+            kinds=(['i'] + ['q'] * 12) * len(step3))
     # ---- calc_intersection_point / calc_intersection_distance / scale_diagonals factor
     n_diag = 0
     tilts = []
